@@ -99,6 +99,7 @@ static std::vector<std::string> c12Cases(bool thorough) {
     v.push_back("fanalog"); v.push_back("fparam");
     int step = thorough ? 1 : 8;
     for (int i = 0; i < 2048; i += 18 * step) v.push_back("fevent:" + std::to_string(i));
+    for (int i = 0; i < 2048; i += 18 * step) for (int ne : {0, 2, 17}) v.push_back("fstale:" + std::to_string(i) + ":" + std::to_string(ne));   // all 18 event-time slots filled, only the first ne declared
     for (int i = 0; i < 2048; i += step) v.push_back("frate:" + std::to_string(i));
     // header rate and POINT:RATE that agree to 1e-4 Hz without being the same pattern (59.94 written by one program, 60000/1001 by another): both must be decoded and re-encoded as they are
     for (int k = 0; k < 12; ++k) v.push_back("hrate:" + std::to_string(k));
@@ -133,6 +134,7 @@ static bool c12ContentBase(const std::string& cs, gen::Content& c, gen::Layout& 
     if (kind == "fpoint") { int r = atoi(arg.c_str()); c.nPoints = 128; c.nFrames = 4; c.labelsDelta = -126; c.ptFn = [r](int f, int p, int k) { return fpat((f * 512 + p * 4 + ((k + r) & 3)) & 2047); }; return true; }
     if (kind == "fanalog") { c.nPoints = 0; c.nChans = 1; c.spf = 16; c.analogRate = 1600; c.nFrames = 128; c.anFn = [](int f, int s, int) { return fpat(f * 16 + s); }; return true; }
     if (kind == "fparam") { std::vector<uint32_t> v; for (int i = 0; i < 2048; ++i) v.push_back(fpat(i)); c.customParams.push_back(gen::GParam::floats("ALLF", {128, 16}, v)); return true; }
+    if (kind == "fstale") { int i0 = atoi(arg.c_str()); c.nEvents = atoi(arg.substr(arg.find(':') + 1).c_str()); for (int i = 0; i < 18; ++i) c.eventTimes.push_back(fpat((i0 + i) & 2047)); return true; }
     if (kind == "fevent") { int i0 = atoi(arg.c_str()); c.nEvents = 18; for (int i = 0; i < 18; ++i) c.eventTimes.push_back(fpat((i0 + i) & 2047)); return true; }
     if (kind == "hrate") {   // pairs (header, parameter) a few ulp apart; kept only if they agree under the library's documented 1e-4 truncation
         static const float base[6] = {59.94f, 23.976f, 29.97f, 119.88f, 100.0f, 0.5f}; int k = atoi(arg.c_str()); float h = base[k % 6]; uint32_t hb = gen::f2b(h), pb = hb + (k < 6 ? 16u : 2u); float pf; memcpy(&pf, &pb, 4);
